@@ -72,7 +72,7 @@ def run_registry(desc):
     from vmon import history, rec, regmodel
 
     rng = random.Random(desc["seed"])
-    rp = regmodel.gen_regplan(rng, desc["n"], cfg={"p_dsrc": 0.3, "p_chain": 0.6})
+    rp = regmodel.gen_regplan(rng, desc["n"], cfg={"p_dsrc": 0.3, "p_chain": 0.6, "p_redundant": 0.4})
     S = regmodel.Session(rp, desc["seed"])
     H, ir = S.H, S.ir
     if desc["prebuilt"]:
